@@ -1,3 +1,4 @@
+import NpsVerif.Spec.Py
 /-! Helper functions the generated kernels refer to (numpy scalar functions on `Int`). -/
 namespace Gen
 
@@ -5,5 +6,10 @@ namespace Gen
 def sgn (x : Int) : Int := if x > 0 then 1 else if x < 0 then -1 else 0
 /-- `np.abs` -/
 def iabs (x : Int) : Int := if x < 0 then -x else x
+
+/-- Python's `slice(a, b, k).indices(n)` (`PySlice_AdjustIndices`); `k = None` is 1. -/
+def sliceIndices (n : Int) (a b k : Option Int) : Int × Int × Int :=
+  let k' := k.getD 1
+  (Py.adjStart n a k', Py.adjStop n b k', k')
 
 end Gen
